@@ -992,6 +992,7 @@ func Run(ctx *core.Ctx) {
 	if only < 0 {
 		gridAreaProbe(ctx, bin)
 		nonFiniteProbe(ctx, bin)
+		clipCircleProbe(ctx, bin)
 	}
 	if ctx.Violations() == 0 {
 		inPackageLayer(ctx)
